@@ -62,7 +62,7 @@ DeliverSnapshot ==
 
 \* an operation on an item that is not an exchange report (the engine records a cancel request
 \* for the order, possibly repeatedly): what the exchange reported stays as it is
-Touch == /\ \E i \in ITEMS : last' = <<Msg(i, 0, 0)>>
+Touch == /\ \E i \in ITEMS : last' = <<Msg(i, -1, 0)>>
          /\ UNCHANGED <<held, delivered>>
 
 Next == DeliverOne \/ DeliverSnapshot \/ Touch
@@ -82,7 +82,7 @@ Latest == \A i \in ITEMS :
 \* an older message never overwrites newer state; other items are untouched
 NoRollbackA == \A i \in ITEMS :
                  /\ (held[i].has => held'[i].has /\ held'[i].t >= held[i].t)
-                 /\ ((\A k \in 1..Len(last') : last'[k].item # i \/ last'[k].t = 0) => held'[i] = held[i])
+                 /\ ((\A k \in 1..Len(last') : last'[k].item # i \/ last'[k].t = -1) => held'[i] = held[i])
 NoRollback == [][NoRollbackA]_vars
 
 View == <<held, delivered>>
